@@ -55,7 +55,7 @@ ALSO = {
            "template and emitted function carry the same property name; no advertised name is shadowed by a hard-wired arm.",
     "C17": "Also decided: the done flag protocol, every entry path offers the rule to the listener, the shared state is "
            "reached only through the lock, and the bundled CLI keeps the previous receiver alive until run() has joined "
-           "the previous parser thread. The CLI adds no breakpoint after it has started a session on the same path.",
+           "the previous parser thread. The CLI adds no breakpoint after it has started a session on the same path. Each CLI session reports through its own channel; the breakpoint set changes only element by element; the parser thread's sends are judged against run()'s join (known finding: blocking sends on the bounded channel).",
     "C18": "The same analyses are re-run on the PEG decompiled from the derive-expanded JsonParser, in the default build and "
            "in a build with pest_derive/grammar-extras unified in; the tree clause's observation layer (Pairs views) is C04 "
            "re-run; lifting a call limit (C12.SETTER) is re-run.",
